@@ -17,6 +17,10 @@ CHECKS = {
                 text="For each of 15 copy routes, every mutation of a 14-entry menu applied to either side, and all values of the symbolic fields (charge incl. 0, multiplicity, label None/empty/non-empty, attribute value, partial-charge rows incl. all-zero): the copy equals the source in every observable field of its class, atoms/bonds report the copy as parent with correct indices, and a deep snapshot of the untouched side is unchanged. pickle/deepcopy/concatenate run on concrete field values (C code).",
                 note="Bounded: one 3-atom source (and its 2-conformer ensemble), one mutation after the copy; pickle and deepcopy are exercised with selectors only. Shallow copy.copy is outside the property.",
                 design="3/C06"),
+    "C07": dict(engine="XH", technique="CrossHair symbolic execution of get/set_mol2_type over symbolic atom-type/geometry/bond-type ints for all 119 elements (z3 splits on molli's match arms), plus selector-driven whole-text write/read cycles",
+                text="Type vocabulary: for every element and every (atom type, geometry) in [0,250]x[0,70] and bond type in [0,110], all paths confirm that the emitted token is accepted by the reader, keeps the element (Dummy rule), preserves Tripos-expressible bond types and is a fixed point of write/read. Whole text: Molecule/Structure/ConformerEnsemble with 0-3 atoms over curated menus of names, labels, elements, coordinates, charges and types read back with the listed fields to 1e-6 / 1e-3 and re-dump to identical text.",
+                note="Strings come from menus (regex-based parsing of symbolic text is out of CrossHair's reach): the whole-text part is selector-bound; quick tier varies menu dimensions pairwise, thorough tier takes the full product.",
+                design="3/C07"),
     "C14": dict(engine="XH+SHP", technique="CrossHair symbolic execution of the real ConformerEnsemble/Conformer code on a shape-level numpy model with symbolic extents (n_conformers up to 1000), plus real-numpy content scenarios; z3 decides each path",
                 text="One inductive step from an arbitrary rectangular state: for every constructor branch, each of 17 operations, all n_conformers in [0,1000] (symbolic, linear integer arithmetic over array extents), n_atoms 0..3 and every conformer index, the three parallel arrays keep matching extents and every conformer view reads coordinates and charges. On real numpy (extents <= 3): writes through a conformer change row i only, iteration (nested, interleaved, suspended) visits each conformer once in order, grown ensembles dump and serialise.",
                 note="The shape model (engine/shapenp.py) is validated against numpy on ~10k concrete shape cases per run; array *content* is only checked at concrete small extents; a symbolic conformer index bypasses __getitem__'s match statement (CrossHair artefact) and constructs the Conformer directly.",
